@@ -52,6 +52,19 @@ pub fn run(seed: u64, count: usize, max_c: usize, max_p: usize, rooms_mode: usiz
         if id % 6 == 5 {
             inst = tight_inst(&mut r);
         }
+        // every fifth instance with a room list: FEWER rooms than courses, all large, and one course that can be cancelled (no instructor,
+        // not fixed) -- usually feasible, and the possible-rooms listing has to cope with courses without a room
+        if id % 5 == 2 && inst.courses.len() >= 2 {
+            let nc = inst.courses.len();
+            let big = inst.courses.iter().map(|c| 2 * (c.max + c.instr.len()) + 14).max().unwrap_or(14);
+            let drop = r.range(1, 2.min(nc - 1));
+            inst.rooms = Some((0..(nc - drop)).map(|_| big + r.below(3)).collect());
+            for c in (nc - drop)..nc {
+                inst.courses[c].fixed = false;
+                inst.courses[c].min = 0;
+            }
+            inst.style.push_str("+fewrooms");
+        }
         let hidden: Vec<Vec<String>> =
             (0..inst.courses.len())
                 .map(|c| {
